@@ -8,6 +8,8 @@ import z3
 from . import core, mathshim
 
 K = z3
+# keep the pretty printer cheap: VC formulas can be very large
+z3.set_option(max_args=6, max_lines=6, max_depth=5, max_visited=300)
 OPS_ADD, OPS_SUB, OPS_MUL, OPS_DIV, OPS_UMINUS = (z3.Z3_OP_ADD, z3.Z3_OP_SUB, z3.Z3_OP_MUL,
                                                  z3.Z3_OP_DIV, z3.Z3_OP_UMINUS)
 
@@ -153,8 +155,9 @@ class Discharger(object):
   """Discharges VCs for one path.  `pc` is the path condition (incl. axioms and
   definedness assumptions)."""
 
-  def __init__(self, timeout_ms=20000):
+  def __init__(self, timeout_ms=20000, deadline=None):
     self.timeout_ms = timeout_ms
+    self.deadline = deadline
     self.stats = dict(queries=0, unsat=0, sat=0, unknown=0, solver_s=0.0, pc_checks=0)
     self.samples = []
 
@@ -169,7 +172,7 @@ class Discharger(object):
 
   def _check(self, s, *assumptions):
     t0 = time.time()
-    r = s.check(*assumptions)
+    r = core.timed_check(s, self.timeout_ms, *assumptions)
     self.stats["queries"] += 1
     self.stats["solver_s"] += time.time() - t0
     self.stats[str(r)] += 1
@@ -179,7 +182,7 @@ class Discharger(object):
     s = self._solver(pc)
     self.stats["pc_checks"] += 1
     t0 = time.time()
-    r = s.check()
+    r = core.timed_check(s, self.timeout_ms)
     self.stats["solver_s"] += time.time() - t0
     return r
 
@@ -198,6 +201,10 @@ class Discharger(object):
       if r == z3.unsat:
         return [(v, "unsat", None) for v in vcs]
     for v in vcs:
+      if self.deadline and time.time() > self.deadline:
+        out.append((v, "unknown", None))
+        self.stats["unknown"] += 1
+        continue
       s.push()
       s.add(z3.Not(v.formula))
       r = self._check(s)
